@@ -102,6 +102,13 @@ func InvokeThriftgo(SDKPlugins []plugin.SDKPlugin, args ...string) (err error) {
 	}
 
 	for _, out := range langs {
+		if g.GetBackend(out.Language) == nil {
+			// before anything is generated for an earlier target
+			return fmt.Errorf("No generator for language '%s'", out.Language)
+		}
+	}
+
+	for _, out := range langs {
 		out.UsedPlugins = plugins
 		out.SDKPlugins = SDKPlugins
 		req.Language = out.Language
